@@ -17,5 +17,5 @@ func init() {
 			"the scheduler's lock model is sync.RWMutex as documented (one writer, many readers, an announced writer blocks new readers until it has acquired and released)",
 			"sub-check (a) only sees interleavings at lock granularity: an access made with no lock at all is invisible to it and is left to sub-check (b), which is probabilistic (race detector on the schedules the runtime happens to produce)",
 			"the reference model: define writes the shared scope; set updates the nearest binding or fails; get/type read the nearest binding or fail; delete removes from the shared scope only; delete-nearest removes the nearest binding; copy/listing/String observe the shared scope's own tables; only error presence is compared, not error texts",
-			"added operations: NewModule is one define of a fresh scope already linked to the shared one; a Get/Type through a fetched module answers like the same lookup on the shared scope (nothing defines inside a module); the define-global forms write the root, which is the parent, and are only generated for a name whose presence in the shared scope's own table is constant (the statement's parent is read-only; a lookup that walks two scopes while both bindings change is not judged); a type name no scope binds that is a Go type name (int64) resolves to that Go type and no lookup changes a table; GetEnvFromPath: only paths with one reading (first segment bound to a module or not at all, later segments looked up in the own table of the module reached)")})
+			"added operations: NewModule is one define of a fresh scope already linked to the shared one; a Get/Type/Set/Addr/DeleteGlobal through a fetched module answers like the same operation on the shared scope (nothing defines inside a module, so the nearest binding is the one the shared scope sees); the define-global forms write the root, which is the parent, and are only generated for a name whose presence in the shared scope's own table is constant (the statement's parent is read-only; a lookup that walks two scopes while both bindings change is not judged); a type name no scope binds that is a Go type name (int64) resolves to that Go type and no lookup changes a table; GetEnvFromPath: only paths with one reading (first segment bound to a module or not at all, later segments looked up in the own table of the module reached)")})
 }
